@@ -18,6 +18,34 @@ BUILT = {
              "inputs whose prime factors are < 2^30; zero divisors of % are judged by C14.",
         technique="TLA+ spec (NumTower/BigNum) + TLC bounded model checking with transition replay + TLC trace "
                   "validation of recorded implementation runs"),
+    "C07": dict(
+        cat="model_checking", design="DESIGN.md §4 C07",
+        text="TLC evaluates + - * / % // %% ^ on every pair of a pool of integers and rationals (negative, "
+             "integral-valued, beyond 2^64) with the NumTower specification, checks the laws the property states "
+             "(division identity, sign of %% and %, lowest terms, result level = higher operand level, x/0 falls back "
+             "to float inf/NaN) as invariants, and every case is replayed in the real interpreter. Trace validation "
+             "then covers all four levels: exact arithmetic and conversions on random operands, float(x) must be the "
+             "correctly rounded double (a BigNum relation, incl. overflow/subnormal/tie cases), float+-*float must be "
+             "the correctly rounded exact result, mixed-level operations must be bit-identical to the float operation "
+             "on the converted operands, vector operations must equal the element-wise scalar operations with "
+             "broadcasting and reject different lengths.",
+        note="IEEE rounding inside float % // %% and transcendental functions is not re-implemented: those are judged "
+             "by the mixed-level law only. Complex arithmetic: level only. Trusted: TLC, lib/BigNum, f64::to_bits, "
+             "num-bigint rendering, harness projection.",
+        technique="TLA+ spec (NumTower) + TLC bounded model checking with case replay + TLC trace validation"),
+    "C08": dict(
+        cat="model_checking", design="DESIGN.md §4 C08",
+        text="TLC evaluates every comparison operator (== != < <= > >= <=> >=< min max) on every pair of a 33-value "
+             "pool mixing integers around 2^53/2^63 and beyond, fractions next to floats, +-0, +-inf, NaN and complex "
+             "numbers, and chained comparisons on every triple of a sub-pool, using exact comparison by "
+             "cross-multiplication in BigNum; trichotomy, == an equivalence, < transitive and compatible with ==, "
+             "<=> antisymmetric and NaN-comparisons-are-errors are invariants; each case is replayed in the "
+             "interpreter. Trace validation covers all pairs of a larger random pool (floats together with their "
+             "exact rational value +- 1e-40), lexicographic list/vector comparison, sort (the permutation produced "
+             "must be the stable sorting permutation) and min/max of lists (first extremal element).",
+        note="Strings/bytes ordering is covered only through C13's sort cases. Trusted: TLC, lib/BigNum, f64::to_bits, "
+             "harness projection.",
+        technique="TLA+ spec (NumTower exact order) + TLC bounded model checking with case replay + TLC trace validation"),
 }
 PENDING = "check not built yet in this round (planned, see DESIGN.md section 4 and 9)"
 ALL = ["C%02d" % i for i in range(1, 18)]
